@@ -63,7 +63,7 @@ pub fn draws() -> u64 {
 /// Wall-clock budget of one simulated run.  A run which exceeds it is hung (simulated runs take
 /// milliseconds to seconds; nothing in them waits for real time).
 pub fn run_timeout_s() -> u64 {
-    std::env::var("VERIF_RUN_TIMEOUT_S").ok().and_then(|s| s.parse().ok()).unwrap_or(300)
+    std::env::var("VERIF_RUN_TIMEOUT_S").ok().and_then(|s| s.parse().ok()).unwrap_or(900)
 }
 
 /// Runs `f` in a forked child process, on a fresh thread, with the entropy source replaced by a
